@@ -77,6 +77,21 @@ def check_hook_coverage(P, R, rule, H, root_expr_pred=None):
         for g in groups.values():
             for v in g:
                 alias[v] = g
+        # `str = (struct conf_node_string *)base;` - a differently typed name for the same node
+        changed = True
+        while changed:
+            changed = False
+            for v in list(nv):
+                for d in f.local_defs(v):
+                    val = d.ev.get('rhs') or d.ev.get('init') or {}
+                    while isinstance(val, dict) and val.get('k') == 'cast':
+                        val = val.get('e')
+                    if is_var(val) and (val['name'] in nv or val['name'] in f.params) and val['name'] != v:
+                        g = alias.get(v, {v}) | alias.get(val['name'], {val['name']})
+                        if any(alias.get(x) != g for x in g):
+                            for x in g:
+                                alias[x] = g
+                            changed = True
         for v, t in nv.items():
             if v in f.params and f is H:
                 continue   # the section root itself: its hook is H by construction (WIRE rule)
@@ -113,36 +128,83 @@ def check_hook_coverage(P, R, rule, H, root_expr_pred=None):
                 continue
             names = alias.get(v, {v})
 
+            def strip(e):
+                while isinstance(e, dict) and e.get('k') == 'cast':
+                    e = e.get('e')
+                return e
+
+            def hook_owner(lhs):
+                """the pointer expression whose node's hook member `lhs` denotes (X in X->hook / X->base.hook)"""
+                e = lhs
+                while isinstance(e, dict) and e.get('k') == 'mem' and not e.get('arrow'):
+                    e = e.get('base')
+                if isinstance(e, dict) and e.get('k') == 'mem' and e.get('arrow'):
+                    return strip(e.get('base'))
+                return None
+
             def installs(s, names=names):
+                """None, or the owner: a name of the group ('') or the text of another pointer expression"""
                 ev = s.ev
                 if ev['k'] != 'store' or not is_field(ev['lhs'], 'hook', 'conf_node_base'):
-                    return False
-                rv = root_var(ev['lhs'])
-                if rv is None or rv['name'] not in names:
-                    return False
+                    return None
                 rhs = ev.get('rhs') or {}
                 if rhs.get('k') != 'func':
-                    return False
+                    return None
                 t2 = P.direct_target(f, rhs['name'])
-                return t2 is not None and reaches(P, t2, H)
+                if t2 is None or not reaches(P, t2, H):
+                    return None
+                rv = root_var(ev['lhs'])
+                if rv is not None and rv['name'] in names:
+                    return ''
+                ow = hook_owner(ev['lhs'])
+                return sx(ow) if ow is not None and not is_var(ow) else None
+
+            # state: (hooked?, pointer expressions whose node has the hook, the expression the names are bound to)
+            def mentions(text, var):
+                import re as _re
+                return _re.search(r'(?<![A-Za-z0-9_@#])%s(?![A-Za-z0-9_@#])' % _re.escape(var), text) is not None
 
             def on_event(st, s, names=names):
-                if installs(s):
-                    return 'hooked'
+                flag, hs, bound = st
+                ow = installs(s)
+                if ow == '':
+                    return ('hooked', hs, bound)
+                if ow:
+                    return ('hooked' if ow == bound else flag, hs | frozenset([ow]), bound)
                 ev = s.ev
+                # a store to a variable ends what was known about expressions that mention it
+                if ev['k'] == 'store' and is_var(ev.get('lhs')) and ev['lhs']['name'] not in names:
+                    w = ev['lhs']['name']
+                    hs2 = frozenset(x for x in hs if not mentions(x, w))
+                    b2 = None if (bound and mentions(bound, w)) else bound
+                    if hs2 != hs or b2 != bound:
+                        return (flag, hs2, b2)
+                    return st
+                val = None
                 if ev['k'] == 'store' and is_var(ev.get('lhs')) and ev['lhs']['name'] in names and ev.get('op') == '=':
-                    return 'fresh'
-                if ev['k'] == 'decl' and ev.get('var') in names and ev.get('init') is not None:
-                    return 'fresh'
-                return st
+                    val = ev.get('rhs')
+                elif ev['k'] == 'decl' and ev.get('var') in names and ev.get('init') is not None:
+                    val = ev.get('init')
+                else:
+                    return st
+                v2 = strip(val)
+                b2 = sx(v2) if isinstance(v2, dict) and not is_var(v2) else None
+                if b2 is not None and b2 in hs:
+                    return ('hooked', hs, b2)
+                return ('fresh', hs, b2)
 
             def on_edge(st, e, names=names):
+                flag, hs, bound = st
                 r = rules.edge_rel(e)
-                if r and is_field(r[0], 'hook', 'conf_node_base') and root_var(r[0]) is not None and root_var(r[0])['name'] in names and const_of(r[2]) == 0:
-                    if r[1] == '!=' and st == 'fresh':
-                        return 'hooked'      # already has a hook (installed on an earlier pass)
+                if r and is_field(r[0], 'hook', 'conf_node_base') and const_of(r[2]) == 0 and r[1] == '!=':
+                    if root_var(r[0]) is not None and root_var(r[0])['name'] in names and flag == 'fresh':
+                        return ('hooked', hs, bound)      # already has a hook (installed on an earlier pass)
+                    ow = hook_owner(r[0])
+                    if ow is not None and not is_var(ow):
+                        return ('hooked' if sx(ow) == bound else flag, hs | frozenset([sx(ow)]), bound)
                 return st
-            before, _, _, _ = f.forward('fresh', on_event, on_edge)
+            before0, _, _, _ = f.forward(('fresh', frozenset(), None), on_event, on_edge)
+            before = {k: {x[0] for x in v_} for k, v_ in before0.items()}
             for s in reads:
                 sts = before.get(s.key, set())
                 n += 1
